@@ -105,6 +105,26 @@ family(
     lists=[['q1']],
 )
 
+# ---- names: configs whose names are prefixes of one another (results are named after the config in name mode)
+family(
+    'names',
+    tasks=[
+        _t('a', [P('x')]),
+        _t('b', [], [('a', 'class')], ['a']),
+        _t('m', [], [('a', 'class')], ['a'], kind='mem'),
+    ],
+    rcs={
+        'model': dict(build='file', mounts=[dict(ns=None, values={'x': 1})]),
+        'model.large': dict(build='file', mounts=[dict(ns=None, values={'x': 2})]),
+        'model_x': dict(build='dict', mounts=[dict(ns=None, values={'x': 3})]),
+        'top1': dict(build='uses-common', mounts=[dict(ns=None, values={'x': 5}, tasks=['a', 'm'], cfg='common'),
+                                                  dict(ns=None, values={}, tasks=['b'])]),
+        'top2': dict(build='uses-common', mounts=[dict(ns=None, values={'x': 5}, tasks=['a', 'm'], cfg='common'),
+                                                  dict(ns=None, values={}, tasks=['b'])]),
+    },
+    lists=[['model'], ['model.large'], ['model_x'], ['model', 'model.large'], ['top1'], ['top2'], ['top1', 'top2']],
+)
+
 # ---- deep: a <- b <- c <- e, the configurations differ only at the far end (chain-specific task below shared ones)
 family(
     'deep',
@@ -159,19 +179,31 @@ def resolution(fam, rcname):
     rc = fam['rcs'][rcname]
     by = task_by_slug(fam)
     nodes = {}
-    for mount in rc['mounts']:
+    for mi, mount in enumerate(rc['mounts']):
         pre = f"{mount['ns']}::" if mount['ns'] else ''
         for t in fam['tasks']:
+            if 'tasks' in mount and t['slug'] not in mount['tasks']:
+                continue
             deps = [pre + resolve_slug(fam, i['ref']) for i in t['inputs']]
             pulls = [pre + resolve_slug(fam, r) for r in list(t['pulls']) + list(t.get('registry_pulls', []))]
             nodes[pre + t['slug']] = dict(slug=t['slug'], pval=persisted(t, mount['values']), deps=deps, pulls=pulls,
-                                          values=mount['values'], ns=mount['ns'])
+                                          values=mount['values'], ns=mount['ns'],
+                                          cfgname=mount.get('cfg') or config_name(rcname, rc, mi))
     return nodes
 
 
-def desc(res, node):
+def desc(res, node, name_mode=False):
     n = res[node]
+    if name_mode:
+        return (n['slug'], n['cfgname'])
     return (n['slug'], tuple((k, v) for k, v in n['pval']), tuple(desc(res, d) for d in n['deps']))
+
+
+def config_name(rcname, rc, i):
+    """the name of the config that declares the tasks of mount i (as build_config realises it)"""
+    b = rc['build']
+    return {'dict': rcname, 'file': rcname, 'context': f'{rcname}_pipe', 'mounts-files': f'{rcname}_m{i}',
+            'mounts-ctx': f'{rcname}_pipe', 'uses-common': rcname}[b]
 
 
 def ref_tree(fam, res, node):
@@ -186,8 +218,9 @@ def ref_tree(fam, res, node):
 class Model:
     """Numbering of computations and the TLA+ constants of a family."""
 
-    def __init__(self, fam, rcs=None, lists=None, collide=None):
+    def __init__(self, fam, rcs=None, lists=None, collide=None, name_mode=False):
         self.fam = fam
+        self.name_mode = name_mode
         self.rcs = list(rcs or fam['rcs'])
         self.res = {rc: resolution(fam, rc) for rc in self.rcs}
         self.lists = [l for l in (lists or fam['lists']) if all(r in self.rcs for r in l)]
@@ -195,7 +228,7 @@ class Model:
         self.descs = []
         for rc in self.rcs:
             for node in self.res[rc]:
-                d = desc(self.res[rc], node)
+                d = desc(self.res[rc], node, name_mode)
                 if d not in self.descs:
                     self.descs.append(d)
                 self.did[(rc, node)] = self.descs.index(d) + 1
@@ -245,6 +278,8 @@ class Model:
             'ND': str(self.nd),
             'KeyOf': tla([self.keyof[d] for d in range(1, self.nd + 1)]),
             'NK': str(self.nd),
+            'NameMode': 'TRUE' if self.name_mode else 'FALSE',
+            'CfgName': tla(fn(lambda rc, n, r: r['cfgname'])),
             'Lists': '{' + ', '.join(tla(l) for l in self.lists) + '}',
             'ForceSets': '(' + ' @@ '.join(
                 f'{tla(rc)} :> {{' + ', '.join(tla(set(s)) if s else '{}' for s in fs[rc]) + '}' for rc in self.rcs) + ')',
@@ -289,6 +324,17 @@ def build_config(fam, rcname, base_dir, workdir, variant=0):
         f = workdir / f'{rcname}_pipe.json'
         f.write_text(json.dumps({'tasks': f"{fam['module']}.*"}))
         return Config(base_dir, f, context=json.loads(json.dumps(m0['values'])))
+    if build == 'uses-common':
+        # mounts[0]: the tasks of a config file shared by several configurations (same path for all of them)
+        common = workdir.parent / f"{rc['mounts'][0]['cfg']}.json"
+        cm = rc['mounts'][0]
+        common.write_text(json.dumps({'tasks': [s_ for s_, c in zip(strings, classes) if c._vspec['slug'] in cm['tasks']],
+                                      **cm['values']}))
+        own = rc['mounts'][1]
+        f = workdir / f'{rcname}.json'
+        f.write_text(json.dumps({'tasks': [s_ for s_, c in zip(strings, classes) if c._vspec['slug'] in own['tasks']],
+                                 'uses': [str(common)], **own['values']}))
+        return Config(base_dir, f)
     if build == 'mounts-files':
         uses = []
         for i, m in enumerate(rc['mounts']):
